@@ -34,8 +34,16 @@ CHECKS = {
          "For every seeded merge plan the close channel is closed before the call and inside each of the W write callbacks (repeated sweeps, since section order varies); each point must end as (closed error, no file) or (success, complete correct file).", "§3 C18"),
  "C20": ("exploration", "runtime monitoring: exhaustive balanced AddRef/DecRef/Close sequences with /proc inspection and reads between operations + concurrent holders under the race detector",
          "Every balanced reference sequence up to the bound is executed on a freshly opened file with reads between operations and /proc/self/maps + /proc/self/fd inspected after each step; concurrent holders release under the race detector. Exhaustive for part A up to the bound.", "§3 C20"),
+ "C14": ("exploration", "runtime monitoring against an engine double: vector-search oracle (true scores, exclusion, eligibility, exact top-k with boundary ties) over seeded vector batches",
+         "Every search result is compared with a brute-force model using the engine double's own scoring function; flat indexes are held to exact top-k, clustered ones to the weaker clause; engine: double (native FAISS is not installed), so zapx's id mapping, exclusion, selector choice and top-k plumbing are what is decided.", "§3 C14, §2.5"),
+ "C15": ("exploration", "runtime monitoring against an engine double: model-merge oracle for vector fields + engine lifetime monitor over seeded merge plans",
+         "C14's oracle is applied to every merge output against the merge model (survivors' vectors renumbered, deleted ones gone, no index for emptied fields); the engine registry checks that every native index created by a plan is released exactly once.", "§3 C15, §2.5"),
+ "C16": ("exploration", "runtime monitoring: exhaustive bounded event histories over the vector cache (open/search/close/expire via verif hook) with per-search oracle and engine lifetime monitor + concurrent stress under the race detector",
+         "Every open/search/close/expire history up to the bound, for every ordered pair of exclusion sets, is executed on a fresh segment; each search must equal the history-free answer; the engine double's registry reports use-after-close, close-during-use, double close and leaks. Exhaustive for part A up to the bound.", "§3 C16, §2.5"),
+ "C19": ("fault_enumeration", "runtime monitoring with engine fault injection: the n-th call of every engine operation made to fail, for every n of the fault-free run",
+         "For every build and merge scenario each engine call is failed in turn; the operation must return an error (no file for merges) or else produce a segment that passes the full vector oracle; the registry checks that nothing is leaked.", "§3 C19, §2.5"),
 }
-NOT_YET = {}
+NOT_YET = {"C09": "independent v16 decoder and frozen corpus not built yet (in progress)"}
 
 def main():
     props = [json.loads(l) for l in open(os.path.join(V, "properties.jsonl"))]
@@ -64,7 +72,7 @@ def main():
         hooks = [l.split()[0] for l in open(hp) if l.strip()]
     m = {
         "version": 1,
-        "setup_cmd": "cd /verif && export GOFLAGS=-mod=mod GOPROXY=off GOSUMDB=off GOTOOLCHAIN=local && mkdir -p .build && (cd harness && go build -o ../.build/vcheck ./cmd/vcheck && go build -tags verif -o ../.build/worker-plain ./worker)",
+        "setup_cmd": "cd /verif && export GOFLAGS=-mod=mod GOPROXY=off GOSUMDB=off GOTOOLCHAIN=local && mkdir -p .build && (cd harness && go build -o ../.build/vcheck ./cmd/vcheck && go build -tags verif -o ../.build/worker-plain ./worker && go build -tags verif,vectors -o ../.build/worker-vec ./worker)",
         "hooks": {
             "guard": "verif",
             "enable": "go build -tags verif[,vectors] (workers are built by vcheck from /repo's working tree through harness/go.mod `replace github.com/blevesearch/zapx/v16 => /repo`)",
